@@ -170,16 +170,29 @@ theorem take_len_add {α} (a b : List α) (i : Nat) : (a ++ b).take (a.length + 
   | nil => simp
   | cons x xs ih => simp [List.take_succ_cons, Nat.succ_add, ih]
 
-/-- recovery from a state whose primary holds `pre ++ (a prefix of the live commands)` -/
+/-- CRASH SHAPE: the primary holds everything before the live (non-checkpointed, complete)
+    transaction groups plus a prefix of the live groups' own commands; `all` is the command
+    sequence of the history recovered. -/
+def Shape (st : St) (all : List Cmd) : Prop :=
+  ∃ (liveL : List (Nat × List Cmd)) (pre : List Cmd) (i : Nat),
+    liveTGs st.wal = liveL ∧
+    st.prim = applyCmds [] (pre ++ ((liveL.map (·.2)).flatten).take i) ∧
+    all = pre ++ (liveL.map (·.2)).flatten
+
 theorem recover_equiv (st : St) (liveL : List (Nat × List Cmd)) (hl : liveTGs st.wal = liveL)
     (pre : List Cmd) (i : Nat)
     (hp : st.prim = applyCmds [] (pre ++ ((liveL.map (·.2)).flatten).take i)) :
-    Equiv (recover st) (applyCmds [] (pre ++ (liveL.map (·.2)).flatten)) := by
+    Shape st (pre ++ (liveL.map (·.2)).flatten) := ⟨liveL, pre, i, hl, hp, rfl⟩
+
+/-- replaying the live groups over a crash-shaped primary yields the whole history once -/
+theorem shape_recover {st : St} {all : List Cmd} (h : Shape st all) :
+    Equiv (recover st) (applyCmds [] all) := by
+  obtain ⟨liveL, pre, i, hl, hp, hall⟩ := h
   unfold recover
-  rw [hl, replay_eq_applyCmds, hp]
+  rw [hl, replay_eq_applyCmds, hp, hall]
   exact replay_idem [] pre _ i
 
-theorem recover_of_bnd {s c done liveL} (h : Bnd s c done liveL) : Equiv (recover s) (applyCmds [] done) := by
+theorem recover_of_bnd {s c done liveL} (h : Bnd s c done liveL) : Shape s done := by
   obtain ⟨pre, hpre⟩ := h.split
   have hl : liveTGs s.wal = liveL := by
     have := h.scan []; simpa [liveTGs, scanLive] using this
@@ -262,8 +275,8 @@ theorem flush_full {s c done liveL} (h : Bnd s c done liveL) (cmds : List Cmd) :
 /-- state after any prefix of a flush: recovery yields the history without or with this TG -/
 theorem flush_step {s c done liveL} (h : Bnd s c done liveL) (cmds : List Cmd) (es : List Effect)
     (hes : es <+: flushEffects c.tgid cmds) :
-    (Equiv (recover (run s es)) (applyCmds [] done) ∧ (run s es).acked = s.acked) ∨
-    (Equiv (recover (run s es)) (applyCmds [] (done ++ cmds)) ∧
+    (Shape (run s es) done ∧ (run s es).acked = s.acked) ∨
+    (Shape (run s es) (done ++ cmds) ∧
       ((run s es).acked = s.acked ∨ (es = flushEffects c.tgid cmds ∧ (run s es).acked = s.acked + 1))) := by
   obtain ⟨pre, hpre⟩ := h.split
   rw [flushEffects_eq] at hes
@@ -338,7 +351,7 @@ theorem flush_step {s c done liveL} (h : Bnd s c done liveL) (cmds : List Cmd) (
         have hprims := run_prims { s with wal := s.wal ++ tgRecs c.tgid cmds, walDurable := s.wal ++ tgRecs c.tgid cmds } cmds
         simp only [run] at hprims
         have hfin : ∀ st : St, st.prim = applyCmds s.prim cmds → st.wal = s.wal ++ tgRecs c.tgid cmds →
-            Equiv (recover st) (applyCmds [] (done ++ cmds)) := by
+            Shape st (done ++ cmds) := by
           intro st hp hw
           rw [hpre, List.append_assoc, ← flatten_map_append]
           refine recover_equiv st _ (by rw [hw]; exact hl) pre ((liveL.map (·.2)).flatten.length + cmds.length) ?_
@@ -366,8 +379,7 @@ theorem filter_all_le (liveL : List (Nat × List Cmd)) (id : Nat) (h : ∀ t ∈
 
 /-- a state with an empty live set recovers to its own primary content -/
 theorem recover_no_live (st : St) (done : List Cmd) (hl : liveTGs st.wal = []) (hp : st.prim = applyCmds [] done) :
-    Equiv (recover st) (applyCmds [] done) := by
-  unfold recover; rw [hl, hp]; exact Equiv.refl _
+    Shape st done := ⟨[], done, 0, hl, by simpa using hp, by simp⟩
 
 theorem checkpoint_full {s c done liveL} (h : Bnd s c done liveL) :
     ∃ liveL', Bnd (run s (checkpointEffects c.lastCommitted)) { c with lastCommitted := none } done liveL' ∧
@@ -387,7 +399,7 @@ theorem checkpoint_full {s c done liveL} (h : Bnd s c done liveL) :
 
 theorem checkpoint_step {s c done liveL} (h : Bnd s c done liveL) (es : List Effect)
     (hes : es <+: checkpointEffects c.lastCommitted) :
-    Equiv (recover (run s es)) (applyCmds [] done) ∧ (run s es).acked = s.acked := by
+    Shape (run s es) done ∧ (run s es).acked = s.acked := by
   cases hc : c.lastCommitted with
   | none =>
     rw [hc] at hes
@@ -409,7 +421,7 @@ theorem checkpoint_step {s c done liveL} (h : Bnd s c done liveL) (es : List Eff
       rw [this]
       simp only [scanLive, hl.1, if_true]
       exact filter_all_le liveL id hl.2
-    have hrec : ∀ st : St, st.prim = s.prim → liveTGs st.wal = liveL → Equiv (recover st) (applyCmds [] done) := by
+    have hrec : ∀ st : St, st.prim = s.prim → liveTGs st.wal = liveL → Shape st done := by
       intro st hp hw
       rw [hpre]
       exact recover_equiv st liveL hw pre ((liveL.map (·.2)).flatten.length)
@@ -438,7 +450,7 @@ theorem rotate_full {s c done liveL} (h : Bnd s c done liveL) :
 
 theorem rotate_step {s c done liveL} (h : Bnd s c done liveL) (es : List Effect)
     (hes : es <+: rotateEffects c.lastCommitted) :
-    Equiv (recover (run s es)) (applyCmds [] done) ∧ (run s es).acked = s.acked := by
+    Shape (run s es) done ∧ (run s es).acked = s.acked := by
   unfold rotateEffects at hes
   rcases prefix_append_cases _ _ _ hes with h1 | ⟨t, ht, rfl⟩
   · exact checkpoint_step h es h1
